@@ -544,8 +544,17 @@ fn format_directive<'entry>(
             }
         }
 
+        // %y agrees with -type and %Y with -xtype: where the follow mode
+        // resolves links (-L, or -H on a starting point) %y describes the
+        // target and %Y the link itself.
         FormatDirective::Type { follow_links } => if file_info.path_is_symlink() {
-            if *follow_links {
+            if file_info.follow() {
+                if *follow_links || file_info.file_type().is_symlink() {
+                    'l'
+                } else {
+                    format_non_link_file_type(file_info.file_type())
+                }
+            } else if *follow_links {
                 match file_info.path().metadata().map_err(WalkError::from) {
                     Ok(meta) => format_non_link_file_type(meta.file_type().into()),
                     Err(e) if e.is_not_found() => 'N',
